@@ -45,7 +45,6 @@ Definition mapping_wf (m : list entry) : Prop :=
   forall i e, nth_error m i = Some e -> entry_wf i e.
 
 (* ---- inclusion of subset definitions ---- *)
-Definition feat_subset (a b : featset) : Prop := forall t, feat_in a t -> feat_in b t.
 Definition sdef_subset (a b : sdef) : Prop :=
   (forall x, cp_in (sd_cp a) x -> cp_in (sd_cp b) x) /\
   (match sd_feat a, sd_feat b with
@@ -81,3 +80,18 @@ Definition best_in (c : cand) (l : list cand) : Prop :=
 Definition is_full (c : cand) : bool := match c_fmt c with FullInv => true | _ => false end.
 Definition is_part (c : cand) : bool := match c_fmt c with PartInv => true | _ => false end.
 Definition is_glyph (c : cand) : bool := match c_fmt c with GlyphKeyed => true | _ => false end.
+
+(* the candidate lists of GroupingByInvalidation as filters of the offered candidates
+   ([ift]/[iftx] = compatibility ids of the "IFT " / "IFTX" tables, if present) *)
+Definition pred_pift (ift : option Z) (c : cand) : bool := is_part c && opt_eqb (c_cid c) ift.
+Definition pred_piftx (ift iftx : option Z) (c : cand) : bool :=
+  is_part c && negb (opt_eqb (c_cid c) ift) && opt_eqb (c_cid c) iftx.
+Definition pred_nift (ift : option Z) (c : cand) : bool := is_glyph c && opt_eqb (c_cid c) ift.
+Definition pred_niftx (ift iftx : option Z) (c : cand) : bool :=
+  is_glyph c && negb (opt_eqb (c_cid c) ift) && opt_eqb (c_cid c) iftx.
+
+(* what a scope of the selected group must be relative to its invalidating candidates [l]:
+   the best candidate, or no invalidating patch only if there is no candidate *)
+Definition sel_of (s : scoped) : option cand := match s with SPartial c => Some c | SNoInv _ => None end.
+Definition scope_ok (l : list cand) (s : scoped) : Prop :=
+  match s with SPartial c => best_in c l | SNoInv _ => l = [] end.
